@@ -186,7 +186,7 @@ func (inst *InstShuffleVector) Type() types.Type {
 		if !ok {
 			panic(fmt.Errorf("invalid vector type; expected *types.VectorType, got %T", inst.Mask.Type()))
 		}
-		inst.Typ = types.NewVector(maskType.Len, xType.ElemType)
+		inst.Typ = &types.VectorType{Scalable: maskType.Scalable, Len: maskType.Len, ElemType: xType.ElemType}
 	}
 	return inst.Typ
 }
